@@ -39,6 +39,8 @@ def tree_hash():
     here = os.path.dirname(os.path.abspath(__file__))
     for root, _, files in os.walk(here):
         for fn in sorted(files):
+            if fn in ("oracle.py", "evaluate.py", "shrink.py") or fn.startswith("dev_"):
+                continue  # judging what was observed does not change what is executed
             if fn.endswith((".py", ".rs")):
                 with open(os.path.join(root, fn), "rb") as f:
                     h.update(hashlib.sha256(f.read()).digest())
@@ -75,7 +77,30 @@ def classify_stderr(stderr):
     return {"n_error": n_err, "n_warning": n_warn, "panicked": panicked, "panic_msg": panic_msg, "panic_loc": panic_loc, "first_lines": first[:6]}
 
 
+class SlotLock:
+    """Advisory lock on a slot workspace: corpora, the shrinker and C10 may run in different processes."""
+    def __init__(self, slot):
+        self.path = os.path.join(e2e_env.SLOTS, "%s.lock" % slot)
+
+    def __enter__(self):
+        import fcntl
+        os.makedirs(e2e_env.SLOTS, exist_ok=True)
+        self.f = open(self.path, "w")
+        fcntl.flock(self.f, fcntl.LOCK_EX)
+        return self
+
+    def __exit__(self, *a):
+        import fcntl
+        fcntl.flock(self.f, fcntl.LOCK_UN)
+        self.f.close()
+
+
 def run_case(slot, case, keep_events=True):
+    with SlotLock(slot):
+        return _run_case(slot, case, keep_events)
+
+
+def _run_case(slot, case, keep_events=True):
     """Execute one case on one slot. Never raises for failures of the code under test."""
     t0 = time.time()
     res = {"id": case["id"], "mode": case["mode"], "stages": {}}
